@@ -2,7 +2,7 @@
    has to send, are exactly t's program: every packet of a sender gets hold of the transport at most once and in
    program order; a task that returned normally has put all its packets on the wire (with wire_is_concat_of_packets). *)
 From Coq Require Import List Arith Bool ZArith Lia.
-From EN Require Import Lib.Bytes Conc.FairLock Conc.Guard Conc.SendSerial Proofs.C12_wire.
+From EN Require Import Lib.Bytes Conc.FairLock Conc.AsyncioLock Conc.Guard Conc.SendSerial Proofs.C12_wire.
 Import ListNotations.
 
 (* packets of the segments owned by t, newest first *)
@@ -111,11 +111,12 @@ Lemma Q_run_task : forall progs prog t s, Q progs s -> tk s t = Some TRun ->
 Proof.
   intros progs prog; induction prog as [|p rest IH]; intros t s HQ Ht Hp; simpl.
   - apply Q_set; auto. exists []. split; simpl; auto.
-  - destruct (s_uselock s).
-    + destruct (fl_acquire t (s_lock s)) as [l got]. destruct got.
-      * apply Q_send_body; auto; try (eapply Q_ext; [| |exact HQ]; reflexivity).
-      * apply Q_set; [eapply Q_ext; [| |exact HQ]; reflexivity|]. exists (p :: rest). split; simpl; auto.
-    + apply Q_send_body; auto.
+  - assert (C := acquire_core t s). destruct (acquire t s) as [s1 got]. simpl in C. destruct C as [_ [C1 [_ C2]]].
+    assert (Q1 : Q progs s1) by (eapply Q_ext; [| |exact HQ]; auto).
+    assert (T1 : tk s1 t = Some TRun) by (unfold tk in *; rewrite C1; auto).
+    destruct got.
+    + apply Q_send_body; auto. rewrite C2. auto.
+    + apply Q_set; auto. exists (p :: rest). rewrite C2. split; simpl; auto.
 Qed.
 
 Lemma Q_init : forall ul progs, Q progs (st_init ul progs).
@@ -127,16 +128,18 @@ Qed.
 
 Lemma Q_step : forall progs s l s', Q progs s -> s_next s l = Some s' -> Q progs s'.
 Proof.
-  intros progs s l s' HQ H. destruct l as [t|t|t|t|t]; simpl in H; unfold get_task in H;
+  intros progs s l s' HQ H. destruct l as [t|t|t|t|t|t]; simpl in H; unfold get_task in H;
     destruct (nth_error (s_tasks s) t) as [x|] eqn:E; try discriminate;
     destruct (HQ t x E) as [rem [R1 R2]].
   - destruct x; try discriminate. inversion H; subst. simpl in R2. subst rem. apply Q_run_task; auto.
     + apply Q_set; auto. exists prog. split; simpl; auto.
     + unfold tk. simpl. eapply upd_eq; eauto.
-  - destruct x as [| |p rest| |]; try discriminate. destruct (fl_resume t (s_lock s)) as [l|]; [|discriminate].
-    inversion H; subst. simpl in R2. subst rem. apply Q_send_body; auto.
-    + eapply Q_ext with (s := set_task t TRun s); [reflexivity|reflexivity|]. apply Q_set; auto. exists (p :: rest). split; simpl; auto.
-    + unfold tk. simpl. eapply upd_eq; eauto.
+  - destruct x as [| |p rest| |]; try discriminate. destruct (lk_resume t (set_task t TRun s)) as [s1|] eqn:RS; [|discriminate].
+    inversion H; subst. simpl in R2. subst rem. destruct (lk_resume_core _ _ _ RS) as [_ [C1 [_ C2]]].
+    apply Q_send_body; auto.
+    + eapply Q_ext with (s := set_task t TRun s); auto. apply Q_set; auto. exists (p :: rest). split; simpl; auto.
+    + unfold tk. rewrite C1. simpl. eapply upd_eq; eauto.
+    + rewrite C2. simpl. exact R1.
     + intros. apply Q_run_task; auto.
   - destruct x as [| | |todo rest|]; try discriminate. simpl in R2. subst rem.
     destruct todo as [|pc more]; inversion H; subst.
@@ -155,11 +158,13 @@ Proof.
     + exists rem. rewrite owned_end. split; auto. simpl. intros C. destruct (c_err_not_ok C).
   - destruct x as [prog| |p rest|todo rest|]; try discriminate.
     + inversion H; subst. apply Q_set; auto. exists rem. split; auto. simpl. intros C. destruct (c_canc_not_ok C).
-    + destruct (fl_cancel t (s_lock s)) as [l|]; [|discriminate]. inversion H; subst.
-      apply Q_set; [eapply Q_ext; [| |exact HQ]; reflexivity|]. exists rem. split; auto. simpl. intros C. destruct (c_canc_not_ok C).
+    + destruct (lk_cancel t s) as [s1|] eqn:RS; [|discriminate]. inversion H; subst.
+      destruct (lk_cancel_core _ _ _ RS) as [_ [C1 [_ C2]]].
+      apply Q_set; [eapply Q_ext; [| |exact HQ]; auto|]. exists rem. rewrite C2. split; auto. simpl. intros C. destruct (c_canc_not_ok C).
     + inversion H; subst. unfold abort_send. apply Q_set.
       * eapply Q_segs with (s := s); [apply tasks_end| |exact HQ]. intros u. apply owned_end.
       * exists rem. rewrite owned_end. split; auto. simpl. intros C. destruct (c_canc_not_ok C).
+  - destruct x; try discriminate. destruct (lk_futcancel_core _ _ _ H) as [_ [C1 [_ C2]]]. eapply Q_ext; [| |exact HQ]; auto.
 Qed.
 
 Lemma per_sender_order_proof :
